@@ -158,4 +158,12 @@ for fn, nm, path in MEMFAM:
       assumptions=['callee contracts of mem_prim_set*/mem_prim_move* (prim_contracts.h) are checked only bounded, by enumeration (jobs B.mem_prim_*)',
                    'C18: compilers do not elide stores that precede a full memory barrier (or are made by explicit_bzero); the barrier intrinsic is given a ghost body'])
 
+# ---- C19: timingsafe comparisons
+for fn, nm in ((1, 'timingsafe_bcmp'), (2, 'timingsafe_memcmp')):
+    J('B.%s' % nm, ['C19', 'C02', 'C10'], 'B', 'harness/timingsafe.c', sources=['src/extmem/%s.c' % nm] + MEM_COMMON,
+      defines=['FN=%d' % fn, 'NMAX=6'], unwind=8, instrument=[['--branch', 'verif_branch']], replay=True,
+      functions=['_%s_chk' % nm], bound='n <= 6 bytes, all contents of both regions (two independent runs)', timeout=600,
+      note='self-composition over mechanically inserted branch events (goto-instrument --branch)',
+      assumptions=['C19: data independence is shown on the C abstract machine (branch events of the goto program); compiler-introduced branches and micro-architectural effects are out of scope'])
+
 BY_NAME = {j.name: j for j in JOBS}
